@@ -34,7 +34,10 @@ let rec wrapped_of (t : tnode) (top : bool) (pos : int ref) (acc : wrapped list 
         acc := { w_unl = (t.kind = "unl"); w_first = !pos; w_len = len } :: !acc;
       pos := !pos + len
 
-let dur_of = function DoAt (_, d, _, _, _) -> d | Unlim (d, _) -> d | Comp (_, _) -> z0
+let dur_of = function DoAt (_, d, _, _, _) -> d | Unlim (d, _) -> d | Comp (_, _, _) -> z0
+
+let drop_mono (s : string) = String.concat " " (List.filter (fun f -> not (String.length f > 5 && String.sub f 0 5 = "mono=")) (split_blank s))
+let has_u (s : string) = List.exists (fun f -> String.length f > 3 && String.sub f 0 3 = "nu=" && f <> "nu=0") (split_blank s)
 
 type pend = PNone | PN of (z * bool * bool) option | PL of z list
 
@@ -185,6 +188,9 @@ let conc_case (tree : string) (explicit : bool) (plan : string) (obs : string) :
     else if String.length obs_sum >= 5 && String.sub obs_sum 0 5 = "tbl=0" then "ok"
     else if obs = "hang" then "BAD:hang"
     else if !bad <> "" then "BAD:" ^ !bad
+    else if drop_mono obs_sum = drop_mono spec_sum && obs_sum <> spec_sum then
+      (* only the per-caller monotonicity bit differs *)
+      (if (not explicit) && has_u obs_sum then "BAD:nowait-time-decreases" else "BAD:time-decreases")
     else if obs_sum <> spec_sum then begin
       let a = Array.of_list (split_blank obs_sum) and b = Array.of_list (split_blank spec_sum) in
       let i = ref 0 in
